@@ -20,7 +20,7 @@ import (
 
 // C14 — multipart bookkeeping listings are exact and page completely.
 
-var c14Keys = []string{"a", "a/b", "a/c", "d", "a-1", "a.csv", "a b", "d.x"}
+var c14Keys = []string{"a", "a/b", "a/c", "d", "a-1", "a.csv", "a b", "d.x", " lead", "\tq"}
 
 type c14Case struct {
 	Backend backends.Kind `json:"backend"`
@@ -444,6 +444,8 @@ func c14Run(t *testing.T, c *evid.Collector) {
 			{ini("d"), {K: "part", Ref: 0, PartN: 1, Body: b("1")}, {K: "part", Ref: 0, PartN: 2, Body: b("22")}, {K: "part", Ref: 0, PartN: 5, Body: b("55555")}, {K: "part", Ref: 0, PartN: 10000, Body: b("x")}},
 			{ini("a"), ini("d"), {K: "part", Ref: 1, PartN: 3, Body: b("333")}, {K: "part", Ref: 1, PartN: 7, Body: b("7")}, {K: "abort", Ref: 0}, ini("a/c"), ini("a/b")},
 			{ini("a"), ini("d"), ini("a/b"), ini("a"), ini("d"), ini("a/b"), ini("a"), ini("d"), ini("a/b"), ini("a"), ini("d"), ini("a/b"), ini("a"), {K: "abort", Ref: 3}},
+			// keys that begin with white space are keys like any other: their markers come back as they were handed out
+			{ini(" lead"), ini(" lead"), ini("a"), ini("\tq"), ini("\tq"), ini(" lead")},
 			// keys in a prefix relation whose longer one goes on with a byte below '/': ordered by key, not by key + "/"
 			{ini("a"), ini("a-1"), ini("a.csv"), ini("a"), ini("ab"), ini("a b"), ini("a/b"), ini("a-1")},
 			// a refused request to delete the (non-empty) bucket leaves the uploads in progress and their parts alone
